@@ -397,6 +397,15 @@ TRIGGERS = {
     "default.getitem": (lambda pint: pint._DEFAULT_REGISTRY["m"], lambda r: r["m"]),
     "default.setattr": (lambda pint: setattr(pint._DEFAULT_REGISTRY, "autoconvert_offset_to_baseunit", False),
                         lambda r: setattr(r, "autoconvert_offset_to_baseunit", False)),
+    # settings that are PROPERTIES of the registry class, assigned as the very first touch
+    "app.set-default_system": (lambda pint: setattr(pint.get_application_registry(), "default_system", "cgs"),
+                               lambda r: setattr(r, "default_system", "cgs")),
+    "default.set-default_system": (lambda pint: setattr(pint._DEFAULT_REGISTRY, "default_system", "imperial"),
+                                   lambda r: setattr(r, "default_system", "imperial")),
+    "app.set-default_format": (lambda pint: setattr(pint.get_application_registry().formatter, "default_format", "~P"),
+                               lambda r: setattr(r.formatter, "default_format", "~P")),
+    "default.set-formatter-format": (lambda pint: setattr(pint._DEFAULT_REGISTRY, "default_format", ".3f~"),
+                                     lambda r: setattr(r, "default_format", ".3f~")),
     "unpickle": None,           # handled in run_lazy
     "from_tuple": (lambda pint: pint.Quantity.from_tuple((3, (("meter", 1),))),
                    lambda r: r.Quantity.from_tuple((3, (("meter", 1),)))),
